@@ -184,3 +184,26 @@ def run_session(engine, conn, tls_client_auth=True, auth_settings=None, slugs=No
     finally:
         slugs_mod.requests.get = old
     return escaped
+
+
+class Connection(object):
+    """One client connection served by one persistent KmipSession (state the session keeps between requests of a
+    connection stays): exchange(frame) feeds one request frame and returns what the session sent for it."""
+
+    def __init__(self, engine, cert, tls_client_auth=True, auth_settings=None):
+        self.conn = FakeConn(b"", cert=cert)
+        self.s = session_mod.KmipSession(engine, self.conn, ("127.0.0.1", 5696), name="verif-conn",
+                                         enable_tls_client_auth=tls_client_auth, auth_settings=auth_settings or [])
+        self.s._logger.disabled = False
+        self.escaped = []
+
+    def exchange(self, frame):
+        n0 = len(self.conn.sent)
+        self.conn.feed(frame)
+        try:
+            self.s._handle_message_loop()
+        except exceptions.ConnectionClosed:
+            pass
+        except Exception as e:
+            self.escaped.append("%s: %s" % (type(e).__name__, e))
+        return self.conn.sent[n0:]
